@@ -295,6 +295,22 @@ func (w *Wallet) txToOutputs(outputs []*wire.TxOut,
 		if err != nil {
 			return err
 		}
+
+		// The address manager assumes that the imported account has no
+		// private keys, because keys can be imported into it without
+		// one. If the wallet does hold the private key of every input
+		// (they were imported with ImportPrivateKey), the transaction
+		// can and must be signed like any other.
+		if watchOnly && account == waddrmgr.ImportedAddrAccount &&
+			!w.Manager.WatchOnly() {
+
+			watchOnly, err = w.lacksPrivKeys(
+				addrmgrNs, tx.PrevScripts,
+			)
+			if err != nil {
+				return err
+			}
+		}
 		if !watchOnly {
 			err = tx.AddAllInputScripts(
 				secretSource{w.Manager, addrmgrNs},
@@ -343,6 +359,39 @@ func (w *Wallet) txToOutputs(outputs []*wire.TxOut,
 	}
 
 	return tx, nil
+}
+
+// lacksPrivKeys reports whether the private key of at least one of the passed
+// previous output scripts is not available to the wallet.
+func (w *Wallet) lacksPrivKeys(addrmgrNs walletdb.ReadBucket,
+	pkScripts [][]byte) (bool, error) {
+
+	for _, pkScript := range pkScripts {
+		_, addrs, _, err := txscript.ExtractPkScriptAddrs(
+			pkScript, w.chainParams,
+		)
+		if err != nil || len(addrs) != 1 {
+			return true, nil
+		}
+		ma, err := w.Manager.Address(addrmgrNs, addrs[0])
+		if err != nil {
+			return false, err
+		}
+		mpka, ok := ma.(waddrmgr.ManagedPubKeyAddress)
+		if !ok {
+			return true, nil
+		}
+		privKey, err := mpka.PrivKey()
+		if waddrmgr.IsError(err, waddrmgr.ErrWatchingOnly) {
+			return true, nil
+		}
+		if err != nil {
+			return false, err
+		}
+		privKey.Zero()
+	}
+
+	return false, nil
 }
 
 func (w *Wallet) findEligibleOutputs(dbtx walletdb.ReadTx,
